@@ -8,16 +8,59 @@ import sys
 VERIF = os.path.dirname(os.path.dirname(os.path.abspath(__file__)))
 
 # property id -> (level text, level_note, technique, design_ref)
+KANI = "Kani proof harnesses (CBMC bit-precise SAT, CaDiCaL) over symbolic operands; exact integer oracle in wider words"
+TRUST = ("Trusted: Kani/CBMC/CaDiCaL, the MIR of Kani's pinned rustc (dev profile: debug assertions and overflow checks on), "
+         "the oracle code in hk/src. ")
 CHECKS = {
+    "C01": (
+        "Bounded model checking of the compiled crate: for each instantiated alias the solver decides over ALL operand pairs "
+        "that mul equals floor(a*b/2^f) (2W-bit product oracle) and that div's overflow flag and quotient are exact "
+        "(shift/compare criterion + multiply-back, no second division). Full operand space for widths 8-32 (mul also 64); "
+        "128-bit mul on stated operand families. Bounded in the set of fractional counts instantiated and in width for division.",
+        TRUST + "Outside: 64/128-bit division (wide_div.rs), 128-bit mul outside the families, wrapped value of an overflowing "
+        "division for widths >= 16.", KANI, "DESIGN.md 4 C01"),
+    "C02": (
+        "Bounded model checking: per alias and per policy form (one library multiplication/division per query) the solver decides "
+        "over all operand pairs that checked/saturating/wrapping/overflowing (and the operator) agree with one exact result R "
+        "computed in 256-bit two's complement; zero divisors give None.",
+        TRUST + "Outside: 128-bit mul/div policy forms, 64-bit division, aliases not instantiated.", KANI, "DESIGN.md 4 C02"),
+    "C03": (
+        "Bounded model checking: for each instantiated (type, type) pair the solver decides over every bit pattern of both operands "
+        "(every float bit pattern incl. NaN/inf/subnormals) that all six operators and partial_cmp, in both operand orders, equal "
+        "the comparison of the exact rationals (sign/magnitude oracle); Eq/Ord/Hash within a type.",
+        TRUST + "Outside: layout pairs not instantiated (every unordered family pair is covered at 3 (quick) / 13 (thorough) "
+        "layout pairs), f16/bf16.", KANI, "DESIGN.md 4 C03"),
+    "C04": (
+        "Bounded model checking: for each instantiated ordered (source, destination) pair the solver decides over every source "
+        "value that to_num/from_num and the four policy forms equal floor(v*2^dst_frac) with exact overflow (sign/magnitude "
+        "256-bit oracle); From/LossyFrom at the edges of their type-level bounds are value preserving / lose only fraction bits.",
+        TRUST + "Outside: pairs not instantiated; absence of inadmissible From impls (compile-time).", KANI, "DESIGN.md 4 C04"),
+    "C05": (
+        "Bounded model checking on bit patterns (no floating-point operation is executed): every finite f32/f64 pattern into "
+        "each instantiated alias equals round-to-nearest-even with overflow decided on the rounded value, per policy form; every "
+        "fixed value to f32/f64 equals the IEEE RNE result incl. subnormals and overflow to infinity; NaN/inf: checked None, "
+        "saturating bounds, everything else must panic (the post-call assertion is unreachable).",
+        TRUST + "Outside: aliases not instantiated, f16/bf16.", KANI, "DESIGN.md 4 C05"),
+    "C06": (
+        "Bounded model checking: for every value of each instantiated alias all forms of floor/ceil/round/round_ties_to_even, "
+        "round_to_zero, int and frac equal exact integer rounding (flag, wrapped value, None, saturation side). "
+        "Thorough tier instantiates all 507 aliases.",
+        TRUST + "Outside (quick): aliases other than fractional counts {0,1,2,W/2,W-2,W-1,W}+2 seeded per family.", KANI, "DESIGN.md 4 C06"),
+    "C07": (
+        "Bounded model checking: widths 8 (every operation, every fractional count, both signs) and 16 (integer-divisor forms): "
+        "all operand pairs against exact remainders / Euclidean quotients computed in i32/i64, including flags, wrapped values, "
+        "None and saturation side. Three genuine defects of div_euclid are recorded as known findings with their exact regions "
+        "carved out (known_findings.json).",
+        TRUST + "Outside: widths >= 32 and 16-bit fixed-divisor forms (two dividers of the same operands stall the SAT back end; "
+        "the code is one macro body for all widths).", KANI, "DESIGN.md 4 C07"),
     "C10": (
         "Bounded model checking of the compiled crate: for each instantiated alias CBMC decides, over every bit "
         "pattern / every byte string of the type's width, that encode/decode/max_encoded_len and all byte views "
         "are the little-endian bytes of the bits. Full operand space per alias, so the verdict is exhaustive in "
         "the inputs; bounded in the set of aliases instantiated (code is generic in Frac and never reads it).",
-        "Trusted: Kani/CBMC/CaDiCaL, rustc MIR of the Kani toolchain, little-endian x86_64 target. Outside the "
-        "claim: serde representation, aliases not instantiated.",
+        TRUST + "Little-endian x86_64 target. Outside the claim: serde representation, aliases not instantiated.",
         "Kani proof harnesses (CBMC bit-precise SAT) over symbolic bit patterns and byte strings",
-        "DESIGN.md §4 C10"),
+        "DESIGN.md 4 C10"),
 }
 
 NOT_YET = {}
